@@ -229,22 +229,29 @@ pub fn gen_send(run: &mut Run, rng: &mut Rng, thorough: bool) {
                 }
             }
         }
-        // Dublin/IPv6: the whole window of every cell
-        for cell in cs.iter().filter(|c| c.proto == 'u' && c.strat == 'd') {
-            for initial in [0u16, 33434, 64511] {
-                let cfg = WCfg { size: 48, pattern: 0x5a, initial, ..base_cfg(true, cell, rng) };
-                for d in 0..=970u16 {
-                    let p = probe_for(cell, initial, 0, initial + d, 0, 9);
-                    op_send(run, &cfg, &p, if d <= 512 { Some(cell) } else { None });
+    }
+    // Dublin/IPv6: the payload length is sequence - initial sequence.  The strategy restarts the sequence
+    // between rounds once it has reached initial + 512, and a round adds at most 254 numbers: every offset
+    // up to 765 can reach the wire and must be dispatched (C07: it fits the packet buffer); beyond that the
+    // model and the code only have to agree.  Quick: the boundaries; thorough: the whole window.
+    for cell in cs.iter().filter(|c| c.proto == 'u' && c.strat == 'd') {
+        for initial in [0u16, 33434, 64511] {
+            let cfg = WCfg { size: 48, pattern: 0x5a, initial, ..base_cfg(true, cell, rng) };
+            let offsets: Vec<u16> = if thorough { (0..=970).collect() } else {
+                (0..=3).chain(254..=258).chain(505..=520).chain([600, 700, 764, 765, 766, 969, 970]).collect()
+            };
+            for d in offsets {
+                let p = probe_for(cell, initial, 0, initial + d, 0, 9);
+                let before = run.oracle_failures.len();
+                op_send(run, &cfg, &p, if d <= 765 { Some(cell) } else { None });
+                if d <= 765 && run.oracle_failures.len() > before && run.oracle_failures[before..].iter().any(|f| f.0 == "c11-panic") {
+                    run.fail("c07-dublin-payload-panic", format!("Dublin/IPv6 probe with sequence offset {d} (initial {initial}) cannot be dispatched: {}", run.oracle_failures[before].1));
                 }
             }
         }
     }
 }
 
-/// `set_payload` of every packet view with a payload that fits behind the header the buffer
-/// describes: must not panic and must read back through `payload()` (implementation-only oracle
-/// `c04-accessor-panic` / `c12-payload-readback`; these mutators are not part of the Lean model)
 pub fn gen_set_payload(run: &mut Run, rng: &mut Rng, thorough: bool) {
     use trippy_packet::{icmpv4, icmpv6, ipv4::Ipv4Packet, ipv6::Ipv6Packet, tcp::TcpPacket, udp::UdpPacket};
     let kinds = ["ipv4", "ipv6", "udp", "tcp", "echoreq4", "echorep4", "echoreq6", "echorep6"];
